@@ -115,55 +115,36 @@ def encode_varint(value: int) -> bytes:
 
 
 def _encode_reftable_suffix_and_type(value: int) -> bytes:
-    """Encode suffix_and_type using Git-compatible format.
+    """Encode suffix_and_type as git's reftable varint.
 
-    Git uses an additive format instead of proper LEB128:
-    - Values < 128: Single byte (standard)
-    - Values >= 128: Two bytes where byte1 + byte2 = value
+    This is the "offset encoding" of git's varint.c, also used for OFS_DELTA
+    pack entries: 7 bits per byte, most significant group first, the high bit
+    indicating continuation, each continuation group biased by one. Up to 255
+    it coincides with "two bytes that add up to the value".
     """
-    if value < 128:
-        return bytes([value])
-    # Git's broken format: split into two bytes that add up to the value
-    return bytes([0x80, value - 0x80])
+    result = [value & 0x7F]
+    value >>= 7
+    while value > 0:
+        value -= 1
+        result.append(0x80 | (value & 0x7F))
+        value >>= 7
+    return bytes(reversed(result))
 
 
 def _decode_reftable_suffix_and_type(stream: BinaryIO) -> int | None:
-    """Decode suffix_and_type handling both Git's broken and standard formats."""
-    pos = stream.tell()
-    first_byte_data = stream.read(1)
-    if not first_byte_data:
+    """Decode suffix_and_type, the inverse of _encode_reftable_suffix_and_type."""
+    byte_data = stream.read(1)
+    if not byte_data:
         return None
-
-    first_byte = first_byte_data[0]
-
-    # Single byte case - most common path
-    if not (first_byte & 0x80):
-        return first_byte
-
-    # Two byte case - handle missing second byte
-    second_byte_data = stream.read(1)
-    if not second_byte_data:
-        stream.seek(pos)
-        return first_byte & 0x7F
-
-    second_byte = second_byte_data[0]
-
-    # Multi-byte varint case - delegate to proper decoder
-    if second_byte & 0x80:
-        stream.seek(pos)
-        return decode_varint_from_stream(stream)
-
-    # Two-byte case: choose between Git's format and standard LEB128
-    git_value = first_byte + second_byte
-    git_suffix_len = git_value >> 3
-    git_value_type = git_value & 7
-
-    # Use Git's format if it produces reasonable values
-    if git_suffix_len < MAX_REASONABLE_SUFFIX_LEN and git_value_type <= 3:
-        return git_value
-
-    # Fall back to standard LEB128
-    return (first_byte & 0x7F) | ((second_byte & 0x7F) << 7)
+    byte = byte_data[0]
+    value = byte & 0x7F
+    while byte & 0x80:
+        byte_data = stream.read(1)
+        if not byte_data:
+            return None
+        byte = byte_data[0]
+        value = ((value + 1) << 7) + (byte & 0x7F)
+    return value
 
 
 # Reftable magic bytes
